@@ -14,7 +14,7 @@ ENGINE = {'name': 'relay',
  'rule': 'the proxy reached by falling through a real compiled subroute (route without matcher + non-terminal throttle, then a tls matcher that needs data and says no; matching_timeout 300 ms) with the client pausing 900 ms between two segments; late writes first (a segment, 4 s pause - thorough also 12 s -, another segment; with and without proxy_protocol v1 on the proxy handler, the PROXY header the upstream receives is checked and stripped); TLS upstreams (upstream tls option, self-signed loopback listener, 1..2 peers, empty and non-empty streams both ways, every half-close order, in particular the empty request with the client half-closing first); scripted downstream connections whose last chunk is returned together with io.EOF or with another error (1..2 peers, 1..4 chunks, with prefetched bytes); loopback relay scenarios: every wrapper (none, throttle with a huge rate, proxy_protocol, tee with a discarding branch) x 1..3 peers x '
          'the four half-close orders (both free; client first with upstreams waiting for EOF; upstreams first with the client waiting for EOF; '
          'free with mixed chunkings), boundary payload sizes 0, 1, 4096, 8192, 8193, 32768, 32769, 65536, 1 MiB in both directions, abrupt closes '
-         '(RST) of the client and of an upstream mid-stream, also while the other upstreams idle waiting for end-of-stream (the client->upstream direction then ends with an error, not a FIN; the client keeps sending after an upstream was reset so that a write to it fails), 2..3 upstream peers over unix sockets (no WriteTo/ReadFrom fast path in io.Copy) streaming 0.3..1 MiB each at the same time, plus VERIF_N random scenarios (payload 0..2 KiB, one in six up to 300 KB; write chunk '
+         'upstreams that answer at once but start consuming the client stream (50 KB..3 MiB) 300 ms late, so that Handle returns while bytes are still queued towards them, (RST) of the client and of an upstream mid-stream, one peer of 2..3 reset before/while/after the other peers send their two halves 120 ms apart (their bytes must all reach the client, which sees end-of-stream at the end), also while the other upstreams idle waiting for end-of-stream (the client->upstream direction then ends with an error, not a FIN; the client keeps sending after an upstream was reset so that a write to it fails), 2..3 upstream peers over unix sockets (no WriteTo/ReadFrom fast path in io.Copy) streaming 0.3..1 MiB each at the same time, plus VERIF_N random scenarios (payload 0..2 KiB, one in six up to 300 KB; write chunk '
          'sizes 1..64 KiB with random pauses); dialPeers with refusing peers at every position of 1..3 peers. A case is non-trivial when both '
          'directions carry data and one side half-closes only after the other; distinct = (peers, wrapper, close order, size buckets)',
  'trusted_base': ['Linux loopback TCP and /proc/net/tcp (a socket whose inode is non-zero is still owned by a file descriptor) are used to observe '
